@@ -40,6 +40,22 @@ var CurlyRes = []rePool{
 	{".+", []string{"abc", "x"}, []string{""}, nil},
 }
 
+// CurlyResWide / JsrResWide: the pools of the widened streams (Opts.Wide). They extend the base pools
+// (same indices) by expressions with COUNTED REPETITIONS: the expression itself contains '{' and '}',
+// so the closing brace of the variable is not the first '}' of the token.
+var CurlyResWide = append(append([]rePool{}, CurlyRes...),
+	rePool{"^[0-9]{4}$", []string{"2020", "0007"}, []string{"202", "20201", "abcd", ""}, nil},
+	rePool{"[a-f0-9]{2}", []string{"a0", "ff"}, []string{"g", "a", ""}, []string{"xa0y", "a0b"}},
+	rePool{"^\\d{2}-\\d{2}$", []string{"12-31"}, []string{"1-31", "12-3", "12.31"}, nil},
+	rePool{"^[a-z]{2,3}$", []string{"ab", "abc"}, []string{"a", "abcd", "AB"}, nil},
+	rePool{"^x{2,}$", []string{"xx", "xxxx"}, []string{"x", ""}, nil},
+)
+
+var JsrResWide = append(append([]rePool{}, JsrRes...),
+	rePool{"[0-9]{4}", []string{"2020", "0007"}, []string{"202", "abcd", ""}, []string{"20201", "a2020"}},
+	rePool{"[a-z]{2,3}", []string{"ab", "abc"}, []string{"a", "", "AB"}, []string{"abcd", "ab1"}},
+)
+
 // JsrRes: segment-local expressions (positive classes, no anchors, no groups): the forms RouterJSR311 documents.
 var JsrRes = []rePool{
 	{"[0-9]+", []string{"12", "7"}, []string{"ab", "", "x"}, []string{"a1b", "1a"}},
@@ -56,6 +72,18 @@ var Lits = []string{"a", "b", "users", "x1", "a.b", "abcdef", "v1", "c", "my doc
 var Verbs = []string{"run", "stop"}
 var Suffixes = []string{".foo", "_x", "-bar"}
 var VarVals = []string{"1", "42", "abc", "x", "a.b", "q.foo", "y_x", "Z9", "\xc3\xa9", "a:b", "%41", " ", "b", "users", "a", "z-bar", "12:run", "{v}", "*"}
+// ExtVals: values that end like a file name (the last segment of /reports/2020.json): a router must
+// not read anything into the "extension" of a path segment.
+var ExtVals = []string{"r.json", "d.xml", "p.html", "n.txt", "2020.json", "a.b.json", ".json"}
+
+// SubDelims: text with the characters RFC 3986 allows inside a path segment besides letters and digits
+// (sub-delimiters, ':' and '@'): matrix parameters, ;jsessionid, comma lists. To the routers of this
+// package they are ordinary segment text.
+var SubDelims = []string{";a=b", ";", ";jsessionid=1A", ",x", "=", "&k=v", "!", "'", "(1)", "+", "$", "@h", "~", ";v=1;w=2"}
+
+// SufStems: what stands before the suffix in a literal that ends like a suffixed variable
+var SufStems = []string{"index", "q", "a"}
+
 var Methods = []string{"GET", "POST", "PUT", "DELETE", "PATCH", "HEAD", "OPTIONS", "FOO"}
 
 // ExtMethods are extension methods whose names contain one another (PATCH in PROPPATCH, LOCK in
@@ -81,11 +109,33 @@ type Opts struct {
 	Contest     bool // now and then a table of masks of one literal path (genContest)
 	Adversarial bool // free-form paths, odd bytes
 	Trace       bool // run the real side with trace logging enabled
+	// Wide switches the dimensions added for the round-6 changes on (other packages that draw tables with
+	// their own Opts keep their distributions): regex pool with counted repetitions, literal twins of
+	// suffixed variables, representation twins (same method and template, other Consumes/Produces/If),
+	// root paths that are string prefixes of one another, root paths with 3–7 variables, values made of the
+	// characters of the token's own verb/suffix, file-name endings, sub-delimiters inside segments.
+	Wide bool
+	// PlainRoots: every root path is one or two literal segments, never "/", declared without a trailing
+	// slash (the tables on which the ServeMux patterns do not depend on the registration order).
+	PlainRoots bool
+	// ViaServe: RunVariants sends the requests through Container.ServeHTTP instead of Container.Dispatch.
+	ViaServe bool
+	// Observe: some tables are built with pass-through filters that record the route they see as selected.
+	Observe bool
+	// Changes: some tables change after warm-up traffic (ws.Route after Add, RemoveRoute with dynamic routes).
+	Changes bool
+	// OnlyNegotiation: every table is a negotiation table (genNegotiation): streams about the media stages.
+	OnlyNegotiation bool
 }
 
 func (o Opts) res() []rePool {
-	if o.Router == "jsr" {
+	switch {
+	case o.Router == "jsr" && o.Wide:
+		return JsrResWide
+	case o.Router == "jsr":
 		return JsrRes
+	case o.Wide:
+		return CurlyResWide
 	}
 	return CurlyRes
 }
@@ -135,7 +185,7 @@ func genTok(r *rng.R, o Opts, names *int, last, root bool) Tok {
 		}
 		return Tok{Kind: "var", Name: nm}
 	case k < 16 && o.AllowRe && (!root || o.RootRe):
-		return Tok{Kind: "re", Name: nm, Re: r.Intn(len(o.res()))}
+		return Tok{Kind: "re", Name: nm, Re: pickRe(r, o)}
 	case k < 18 && o.AllowSuf && !root:
 		return Tok{Kind: "suf", Name: nm, Suffix: r.Pick(Suffixes)}
 	case last && !root && o.AllowWild:
@@ -146,6 +196,19 @@ func genTok(r *rng.R, o Opts, names *int, last, root bool) Tok {
 		}
 		return Tok{Kind: "var", Name: nm}
 	}
+}
+
+// pickRe: an index into o.res(). The widened pools keep the base expressions at their old density:
+// three out of four draws come from the base pool, one from the extension.
+func pickRe(r *rng.R, o Opts) int {
+	base := len(CurlyRes)
+	if o.Router == "jsr" {
+		base = len(JsrRes)
+	}
+	if n := len(o.res()); o.Wide && n > base && r.Chance(1, 4) {
+		return base + r.Intn(n-base)
+	}
+	return r.Intn(base)
 }
 
 func genToks(r *rng.R, o Opts, n int, names *int, root bool) []Tok {
@@ -180,6 +243,9 @@ func genContest(r *rng.R, o Opts) Config {
 	base := make([]string, nroot+nrel)
 	for i := range base {
 		base[i] = r.Pick(Lits[:8])
+		if o.Wide && o.AllowSuf && i >= nroot && r.Chance(1, 4) {
+			base[i] = r.Pick(SufStems) + r.Pick(Suffixes) // a literal that a suffixed variable admits too
+		}
 	}
 	mask := func(lits []string, allowVar bool) []Tok {
 		out := make([]Tok, len(lits))
@@ -187,6 +253,9 @@ func genContest(r *rng.R, o Opts) Config {
 			if allowVar && r.Chance(1, 2) {
 				names++
 				out[i] = Tok{Kind: "var", Name: fmt.Sprintf("v%d", names)}
+				if suf := suffixOf(l); o.Wide && o.AllowSuf && suf != "" && r.Chance(1, 2) {
+					out[i] = Tok{Kind: "suf", Name: out[i].Name, Suffix: suf}
+				}
 			} else {
 				out[i] = Tok{Kind: "lit", Lit: l}
 			}
@@ -217,6 +286,11 @@ func genContest(r *rng.R, o Opts) Config {
 			if o.Media && r.Chance(1, 4) {
 				rd.Produces = pickMedia(r, o)
 			}
+			if o.Wide && o.Media && r.Chance(1, 2) {
+				// contestants that differ in what they consume: the more specific template is not always
+				// the one that can take the request's Content-Type
+				rd.Consumes = []string{r.Pick(Medias[:2])}
+			}
 			s.Routes = append(s.Routes, rd)
 		}
 		cfg.Services = append(cfg.Services, s)
@@ -224,9 +298,72 @@ func genContest(r *rng.R, o Opts) Config {
 	return cfg
 }
 
+// genNegotiation draws a table in which the decision between routes is made by the representation
+// alone: one WebService, one or two templates, several routes with the SAME method and template that
+// differ in what they produce and consume (and now and then in an If-condition), in random order. It is
+// to the media stages of route selection what genContest is to the ranking of templates.
+func genNegotiation(r *rng.R, o Opts) Config {
+	cfg := Config{Router: o.Router}
+	names, rid := 0, 0
+	var rootToks []Tok
+	for n := r.Intn(2); len(rootToks) < n; {
+		rootToks = append(rootToks, Tok{Kind: "lit", Lit: r.Pick(Lits[:8])})
+	}
+	var templates [][]Tok
+	for n := 1 + r.Intn(2); len(templates) < n; {
+		var rel []Tok
+		for k := 1 + r.Intn(2); len(rel) < k; {
+			rel = append(rel, Tok{Kind: "lit", Lit: r.Pick(Lits[:8])})
+		}
+		if r.Chance(2, 3) {
+			names++
+			rel[len(rel)-1] = Tok{Kind: "var", Name: fmt.Sprintf("v%d", names)}
+		}
+		templates = append(templates, rel)
+	}
+	methods := []string{r.Pick(Methods[:5]), r.Pick(Methods[:5])}
+	s := Service{ID: 0, Root: RenderPath(rootToks, o.res()), RootToks: rootToks}
+	for n := 3 + r.Intn(4); len(s.Routes) < n; {
+		rel := templates[r.Intn(len(templates))]
+		rd := RouteDecl{ID: rid, Method: methods[0], Rel: RenderPath(rel, o.res()), Toks: append(append([]Tok{}, rootToks...), rel...)}
+		rid++
+		if r.Chance(1, 3) {
+			rd.Method = methods[1]
+		}
+		if r.Chance(3, 4) {
+			rd.Produces = []string{r.Pick(Medias)}
+			if r.Chance(1, 4) {
+				rd.Produces = append(rd.Produces, r.Pick(Medias))
+			}
+		}
+		if r.Chance(1, 3) {
+			rd.Consumes = []string{r.Pick(Medias[:3])}
+		}
+		if o.Conds && r.Chance(1, 6) {
+			rd.Conds = []int{r.Intn(3)}
+		}
+		s.Routes = append(s.Routes, rd)
+	}
+	cfg.Services = append(cfg.Services, s)
+	return cfg
+}
+
+// suffixOf: the suffix of the pool a literal ends in ("" = none); the literal must have text before it
+func suffixOf(lit string) string {
+	for _, s := range Suffixes {
+		if len(lit) > len(s) && strings.HasSuffix(lit, s) {
+			return s
+		}
+	}
+	return ""
+}
+
 func GenConfig(r *rng.R, o Opts) Config {
-	if o.Contest && r.Chance(1, 5) {
+	if !o.OnlyNegotiation && o.Contest && r.Chance(1, 5) {
 		return genContest(r, o)
+	}
+	if o.OnlyNegotiation || o.Wide && o.Media && !o.PlainRoots && r.Chance(1, 8) {
+		return genNegotiation(r, o)
 	}
 	cfg := Config{Router: o.Router}
 	names := 0
@@ -238,7 +375,27 @@ func GenConfig(r *rng.R, o Opts) Config {
 		var root string
 		for try := 0; ; try++ {
 			rootToks = genToks(r, o, r.Intn(3), &names, true)
-			if si > 0 && try < 5 && r.Chance(1, 4) {
+			if o.PlainRoots {
+				rootToks = genToks(r, o, 1+r.Intn(2), &names, true)
+			}
+			var sib []Tok
+			if o.Wide && si > 0 && try < 5 && r.Chance(1, 5) {
+				sib = stringPrefixSibling(r, cfg)
+			}
+			if o.Wide && o.RootVars && !o.PlainRoots && r.Chance(1, 10) {
+				// a root path with many variables (3–7), a literal here and there
+				rootToks = nil
+				for n := 3 + r.Intn(5); len(rootToks) < n; {
+					names++
+					if r.Chance(3, 4) {
+						rootToks = append(rootToks, Tok{Kind: "var", Name: fmt.Sprintf("v%d", names)})
+					} else {
+						rootToks = append(rootToks, Tok{Kind: "lit", Lit: r.Pick(Lits[:8])})
+					}
+				}
+			} else if sib != nil {
+				rootToks = sib
+			} else if si > 0 && try < 5 && r.Chance(1, 4) {
 				// a root nested in or around an earlier one (/a, /a/b, /a/b/c in any registration order): the
 				// longest matching root must win whatever came first
 				prev := cfg.Services[r.Intn(len(cfg.Services))].RootToks
@@ -271,6 +428,9 @@ func GenConfig(r *rng.R, o Opts) Config {
 					}
 				}
 			}
+			if o.PlainRoots && len(rootToks) == 0 && try <= 20 {
+				continue
+			}
 			root = RenderPath(rootToks, o.res())
 			if len(rootToks) == 0 && r.Chance(1, 3) {
 				root = "" // WebService.Path("") normalises to "/"
@@ -290,7 +450,7 @@ func GenConfig(r *rng.R, o Opts) Config {
 				break
 			}
 		}
-		if len(rootToks) > 0 && r.Chance(1, 6) {
+		if len(rootToks) > 0 && !o.PlainRoots && r.Chance(1, 6) {
 			root += "/" // trailing slash on the declared root
 		}
 		s := Service{ID: si, Root: root, RootToks: rootToks}
@@ -305,13 +465,24 @@ func GenConfig(r *rng.R, o Opts) Config {
 		}
 		for ri := 0; ri < nroutes; ri++ {
 			var rel []Tok
+			var twinOf *RouteDecl
 			if ri > 0 && r.Chance(1, 3) {
 				// sibling of an earlier route: same shape, one token changed, or another method
 				prev := s.Routes[r.Intn(len(s.Routes))]
 				rel = append([]Tok{}, prev.Toks[len(rootToks):]...)
-				if len(rel) > 0 && r.Chance(2, 3) {
+				if o.Wide && r.Chance(1, 4) {
+					// a representation twin: same method and template, another Consumes/Produces/If
+					twinOf = &prev
+				} else if len(rel) > 0 && r.Chance(2, 3) {
 					i := r.Intn(len(rel))
 					switch {
+					case o.Wide && rel[i].Kind == "suf" && rel[i].Verb == "" && r.Chance(1, 2):
+						// the same place held by a literal that ends in the suffix
+						rel[i] = Tok{Kind: "lit", Lit: r.Pick(SufStems) + rel[i].Suffix}
+					case o.Wide && o.AllowSuf && rel[i].Kind == "lit" && rel[i].Verb == "" && suffixOf(rel[i].Lit) != "" && r.Chance(2, 3):
+						// … or a literal's place by a suffixed variable that admits it
+						names++
+						rel[i] = Tok{Kind: "suf", Name: fmt.Sprintf("v%d", names), Suffix: suffixOf(rel[i].Lit)}
 					case rel[i].Kind == "lit" && rel[i].Verb == "" && r.Chance(1, 2):
 						// the same place held by a variable: a less specific twin of the earlier route
 						names++
@@ -346,6 +517,8 @@ func GenConfig(r *rng.R, o Opts) Config {
 			}
 			relStr := RenderPath(rel, o.res())
 			switch {
+			case twinOf != nil && r.Chance(2, 3):
+				relStr = twinOf.Rel
 			case len(rel) == 0 && r.Chance(1, 2):
 				relStr = ""
 			case len(rel) > 0 && r.Chance(1, 8):
@@ -368,6 +541,15 @@ func GenConfig(r *rng.R, o Opts) Config {
 					rd.Conds = append(rd.Conds, r.Intn(3))
 				}
 			}
+			if twinOf != nil {
+				rd.Method = twinOf.Method
+				if o.Media && r.Chance(2, 3) {
+					rd.Produces = []string{r.Pick(Medias)}
+				}
+				if o.Media && r.Chance(1, 3) {
+					rd.Consumes = []string{r.Pick(Medias[:3])}
+				}
+			}
 			if o.Media && r.Chance(1, 10) {
 				rd.Noct = []string{r.Pick(Methods)}
 			}
@@ -376,6 +558,54 @@ func GenConfig(r *rng.R, o Opts) Config {
 		cfg.Services = append(cfg.Services, s)
 	}
 	return cfg
+}
+
+// stringPrefixSibling: a root whose last segment CONTINUES the last segment of an earlier root, or
+// stops inside it (/api next to /apidocs, /users next to /user): a string prefix that is not a segment
+// prefix. nil when the earlier root drawn does not end in a literal.
+func stringPrefixSibling(r *rng.R, cfg Config) []Tok {
+	prev := cfg.Services[r.Intn(len(cfg.Services))].RootToks
+	if len(prev) == 0 || prev[len(prev)-1].Kind != "lit" {
+		return nil
+	}
+	last := prev[len(prev)-1].Lit
+	if len(last) > 1 && isAlnum(last) && r.Chance(1, 3) {
+		// only letters and digits are cut: the package compiles every template into a regular expression
+		// and calls os.Exit(1) when that fails (half a UTF-8 sequence; and, should literals ever reach the
+		// expression unquoted, half a bracket pair) — an exit of the check process would hide the verdict
+		last = last[:1+r.Intn(len(last)-1)]
+	} else {
+		last += r.Pick([]string{"docs", "s", "2", "-x", ".v2"})
+	}
+	return append(append([]Tok{}, prev[:len(prev)-1]...), Tok{Kind: "lit", Lit: last})
+}
+
+func isAlnum(s string) bool {
+	for i := 0; i < len(s); i++ {
+		c := s[i]
+		if !(c >= 'a' && c <= 'z' || c >= 'A' && c <= 'Z' || c >= '0' && c <= '9') {
+			return false
+		}
+	}
+	return true
+}
+
+// echo draws a value whose tail is made of the characters of the token's own decoration (the custom
+// verb with its colon, the literal suffix): what is cut off a segment must be the decoration itself,
+// once, and not characters that merely occur in it.
+func echo(r *rng.R, deco string) string {
+	stem := r.Pick([]string{"job", "7", "", "a.b"})
+	switch r.Intn(4) {
+	case 0:
+		return stem + deco // the decoration twice, once it is appended
+	case 1:
+		return stem + strings.TrimLeft(deco, ":.-_") // the word without its separator
+	}
+	tail := ""
+	for n := 1 + r.Intn(3); n > 0; n-- {
+		tail += string(deco[r.Intn(len(deco))])
+	}
+	return stem + tail
 }
 
 // instantiate draws a URL segment for one template token: mostly satisfying, sometimes narrowly missing.
@@ -393,6 +623,10 @@ func instantiate(r *rng.R, o Opts, t Tok) []string {
 		if miss && r.Chance(1, 2) {
 			seg = ""
 		}
+		switch {
+		case o.Wide && t.Verb != "" && r.Chance(1, 3):
+			seg = echo(r, ":"+t.Verb)
+		}
 	case "re":
 		p := o.res()[t.Re]
 		switch {
@@ -405,6 +639,12 @@ func instantiate(r *rng.R, o Opts, t Tok) []string {
 		}
 	case "suf":
 		seg = r.Pick(VarVals) + t.Suffix
+		switch {
+		case o.Wide && t.Verb != "" && r.Chance(1, 4):
+			seg = echo(r, ":"+t.Verb) + t.Suffix
+		case o.Wide && r.Chance(1, 4):
+			seg = echo(r, t.Suffix) + t.Suffix
+		}
 		if miss {
 			seg = r.Pick([]string{r.Pick(VarVals), t.Suffix, t.Suffix[1:], "x" + t.Suffix + "y", "", "q"})
 		}
@@ -450,12 +690,13 @@ func GenReq(r *rng.R, o Opts, cfg Config) Req {
 	segs := []string{}
 	contested := r.Chance(1, 5) // every variable takes a literal another template has at its position
 	for i, t := range rt.Toks {
-		if (t.Kind == "var" || t.Kind == "re") && t.Verb == "" && (contested || r.Chance(1, 3)) {
+		if (t.Kind == "var" || t.Kind == "re" || t.Kind == "suf" && o.Wide) && t.Verb == "" && (contested || r.Chance(1, 3)) {
 			// the literal another template has at this position: a URL that several templates
 			// (of the same or of another service) admit, so that the ranking has something to decide
 			var lits []string
 			for _, other := range routes {
-				if i < len(other.Toks) && other.Toks[i].Kind == "lit" && other.Toks[i].Verb == "" {
+				if i < len(other.Toks) && other.Toks[i].Kind == "lit" && other.Toks[i].Verb == "" &&
+					(t.Kind != "suf" || strings.HasSuffix(other.Toks[i].Lit, t.Suffix)) {
 					lits = append(lits, other.Toks[i].Lit)
 				}
 			}
@@ -465,6 +706,9 @@ func GenReq(r *rng.R, o Opts, cfg Config) Req {
 			}
 		}
 		segs = append(segs, instantiate(r, o, t)...)
+	}
+	if n := len(rt.Toks); o.Wide && n > 0 && len(segs) == n && rt.Toks[n-1].Kind == "var" && rt.Toks[n-1].Verb == "" && r.Chance(1, 4) {
+		segs[n-1] = r.Pick(ExtVals) // the resource is named like a file
 	}
 	// mutations
 	for m := r.Intn(6); m < 2; m++ {
@@ -539,6 +783,26 @@ func GenReq(r *rng.R, o Opts, cfg Config) Req {
 					segs[r.Intn(len(segs))] = s[0]
 				}
 			}
+		}
+	}
+	if o.Wide && len(segs) > 0 {
+		switch r.Intn(16) {
+		case 0, 1:
+			// sub-delimiters inside a segment (matrix parameters, ;jsessionid, comma lists …): behind the
+			// segment's text, in front of it, or in the middle
+			i, d := r.Intn(len(segs)), r.Pick(SubDelims)
+			switch k := r.Intn(5); {
+			case k < 3 || len(segs[i]) < 2:
+				segs[i] += d
+			case k == 3:
+				segs[i] = d + segs[i]
+			default:
+				j := 1 + r.Intn(len(segs[i])-1)
+				segs[i] = segs[i][:j] + d + segs[i][j:]
+			}
+		case 2:
+			// the last segment ends like a file name
+			segs[len(segs)-1] += r.Pick([]string{".json", ".xml", ".html", ".txt"})
 		}
 	}
 	path := "/" + strings.Join(segs, "/")
@@ -655,5 +919,6 @@ func genAccept(r *rng.R, rt RouteDecl, all []RouteDecl) string {
 // FullOpts is the widest generator for a router: every documented template form, media, conditions, adversarial paths.
 func FullOpts(router string) Opts {
 	return Opts{Router: router, AllowRe: true, AllowSuf: router == "curly", AllowWild: true, AllowVerb: router == "curly",
-		RootVars: true, RootRe: true, Conds: true, Media: true, MaxSvcs: 4, MaxRoutes: 6, Adversarial: true, Contest: true, Faults: true}
+		RootVars: true, RootRe: true, Conds: true, Media: true, MaxSvcs: 4, MaxRoutes: 6, Adversarial: true, Contest: true, Faults: true,
+		Wide: true, Observe: true, Changes: true}
 }
